@@ -94,10 +94,18 @@ class DefaultDictNew:
 
 
 class BoundMethod:
-    __slots__ = ("path", "obj", "name")
+    __slots__ = ("path", "obj", "name", "sup")
 
-    def __init__(self, path, obj, name):
+    def __init__(self, path, obj, name, sup=None):
         self.path, self.obj, self.name = path, obj, name
+        self.sup = sup          # class name whose BASES the lookup starts from (a call through super())
+
+
+class SuperProxy:
+    """super() inside a method: the receiver, its access path and the class the method is defined in"""
+
+    def __init__(self, obj, path, cls):
+        self.obj, self.path, self.cls = obj, path, cls
 
 
 class Closure:
@@ -585,12 +593,17 @@ class Engine:
                 out.append((cmod, q, True))
         return out
 
-    def havoc_plan(self, stmts):
+    def havoc_plan(self, stmts, self_name=None, _seen=()):
+        whole, paths, _rebound = self.havoc_plan3(stmts, self_name, _seen)
+        return whole, paths
+
+    def havoc_plan3(self, stmts, self_name=None, _seen=()):
         """what a loop body may modify: (names havoc'd as a whole, attribute paths havoc'd individually).
         Stores `a.b.c = v` / `a.b[i] = v` / `a.b.append(v)` havoc the path up to the first subscript; calls with known contracts
         havoc exactly the contract's `modifies` mapped onto the receiver / argument expressions; other impure calls havoc the
         receiver and path arguments as a whole; a name bound to a container element (alias) makes its container root havoc'd."""
         whole, paths = set(), set()
+        rebound = set()      # names that are only re-bound (assignment / loop targets): nothing is stored through them
         amap = alias_roots(stmts)
 
         def path_of(n):
@@ -625,17 +638,30 @@ class Engine:
                     for t in (n.targets if isinstance(n, ast.Assign) else [n.target]):
                         if isinstance(t, (ast.Tuple, ast.List)):
                             whole.update(names_in_target(t))
+                            rebound.update(names_in_target(t))
                         elif isinstance(t, ast.Name):
                             whole.add(t.id)         # rebinding a name stores nothing through what it was bound to before
+                            rebound.add(t.id)
                         else:
                             add(path_of(t))
                 elif isinstance(n, ast.For):
                     whole.update(names_in_target(n.target))
+                    rebound.update(names_in_target(n.target))
                 elif isinstance(n, ast.Delete):
                     for t in n.targets:
                         add(path_of(t))
                 elif isinstance(n, ast.Call):
                     f = n.func
+                    if isinstance(f, ast.Attribute) and isinstance(f.value, ast.Call) and isinstance(f.value.func, ast.Name) \
+                            and f.value.func.id == "super":
+                        # a method of a base class outside the analysed code: it may change anything of the receiver
+                        sn = self_name
+                        if sn is None and "." in self.frame.qual:
+                            fn_ = self.frame.mod.functions.get(self.frame.qual)
+                            sn = fn_.args.args[0].arg if fn_ is not None and fn_.args.args else None
+                        if sn is not None:
+                            paths.add((sn, ()))
+                        continue
                     if isinstance(f, ast.Attribute) and f.attr in MUTATORS:
                         add(path_of(f.value))
                         continue
@@ -663,15 +689,20 @@ class Engine:
                             for kw in n.keywords:
                                 if kw.arg:
                                     actuals[kw.arg] = kw.value
+                            if (cmod.dotted, cq) in _seen:
+                                continue
                             saved_mod = self.frame.mod
                             self.frame.mod = cmod
                             try:
-                                w_c, p_c = self.havoc_plan(fnode_c.body)
+                                w_c, p_c, r_c = self.havoc_plan3(fnode_c.body, formals[0] if ("." in cq and formals) else None,
+                                                                 tuple(_seen) + ((cmod.dotted, cq),))
                             finally:
                                 self.frame.mod = saved_mod
                             for w in w_c:
-                                if w in actuals and is_path(actuals[w]) and not (is_ctor and w == formals[0]):
-                                    pass        # rebinding a formal inside the callee does not touch the caller's object
+                                if w in actuals and is_path(actuals[w]) and not (is_ctor and w == formals[0]) and w not in r_c:
+                                    # the callee hands this formal to something that may change it (an un-modelled call, a mutator):
+                                    # the caller's object is havoc'd.  (Merely re-binding the formal does not touch the caller's object.)
+                                    add(path_of(actuals[w]))
                             for (r_, at_) in p_c:
                                 if r_ in actuals and is_path(actuals[r_]) and not (is_ctor and r_ == formals[0]):
                                     add(path_of(actuals[r_]), at_)
@@ -707,7 +738,7 @@ class Engine:
                             if expr is None or not is_path(expr):
                                 continue
                             add(path_of(expr), rest)
-        return whole, paths
+        return whole, paths, rebound
 
     def static_loop_ordinal(self, fr, node):
         fnode = fr.mod.functions.get(fr.qual)
@@ -1294,6 +1325,8 @@ class Engine:
         return self.get_attr(base, node.attr, node)
 
     def get_attr(self, base, attr, node):
+        if isinstance(base, SuperProxy):
+            return BoundMethod(base.path, base.obj, attr, sup=base.cls)
         if isinstance(base, ModRef):
             return self.resolve_dotted(base.dotted + "." + attr)
         if isinstance(base, Rec):
@@ -1708,9 +1741,11 @@ class Engine:
                 env[k.arg] = kwargs[k.arg]
             elif d is not None:
                 env[k.arg] = self.ev(d)
-        for k in kwargs:
-            if k not in names and k not in [x.arg for x in a.kwonlyargs]:
-                raise PyRaise("TypeError")
+        extra = {k: v for k, v in kwargs.items() if k not in names and k not in [x.arg for x in a.kwonlyargs]}
+        if a.kwarg:
+            env[a.kwarg.arg] = dict(extra)
+        elif extra:
+            raise PyRaise("TypeError")
 
     def call_repo(self, fr, args, kwargs, node, self_path=None):
         key = fr.key()
@@ -2060,6 +2095,9 @@ def type_of(v):
         if not v:
             raise Unsupported("type of empty list literal (declare it in the contract)")
         return TList(type_of(v[0]))
+    if isinstance(v, SSet):
+        from .types import TSet
+        return TSet(v.k)
     if isinstance(v, SDefaultDict):
         return TDefaultDict(v.k, v.v)
     if isinstance(v, SDict):
